@@ -82,13 +82,17 @@ def _c16_nontrivial(r):
 def _shrink_sim(op):
     head, _, script = op.partition(" daemon ")
     cmds = ("daemon " + script).split(" ; ")
+    # the first `run` fixes the start of the history's clock: API calls before it have no
+    # defined time (the two schedulers of `sim2` then disagree by construction)
+    first_run = next((k for k, c in enumerate(cmds) if c.startswith("run ")), -1)
     for k in range(len(cmds) - 1, 0, -1):
-        if cmds[k].startswith(("daemon", "link")):
+        if cmds[k].startswith(("daemon", "link")) or k == first_run:
             continue
         yield head + " " + " ; ".join(cmds[:k] + cmds[k + 1:])
 
 
 shrinkers["sim"] = _shrink_sim
+shrinkers["sim2"] = _shrink_sim
 
 
 def _sim_nontrivial(r):
